@@ -17,6 +17,8 @@ for p in mutants/*.patch seeded/*/patch.diff; do
   case "$p" in *"$pat"*) ;; *) continue;; esac
   # SELFTEST_LIST: a file with one patch path per line restricts the run to those
   if [ -n "${SELFTEST_LIST:-}" ] && ! grep -qxF "$p" "$SELFTEST_LIST"; then continue; fi
+  # SELFTEST_DEADLINE (epoch seconds): no further patch is started after it
+  if [ -n "${SELFTEST_DEADLINE:-}" ] && [ "$(date +%s)" -ge "$SELFTEST_DEADLINE" ]; then echo "deadline reached before $p"; break; fi
   if [[ "$p" == mutants/* ]]; then id=$(basename "$p" | cut -d- -f1); else id=$(python3 -c "import json,sys;print(json.load(open('$(dirname $p)/meta.json'))['property'])"); fi
   ids="${SELFTEST_IDS:-$id}"
   if ! git -C /repo apply --check "$PWD/$p" 2>/dev/null; then echo "SKIP $p (does not apply)"; report="$report\nSKIP  $p does-not-apply"; continue; fi
